@@ -146,7 +146,7 @@ def relevant(rec, case):
 
 
 SPEC = {
-    'lean': ['C10'],
+    'lean': ['C10', 'NatSemIO'],
     'relevant': relevant,
     'cases': cases,
     'stream': 'C10 planted-fault stream (incl. retry families: a cached failure evaluated again under another ㅅㄷ)',
